@@ -576,3 +576,27 @@ contract('gnpy.topology.spectrum_assignment.pth_assign_spectrum',
          use_at_calls=False, allow_other_exc=(), max_paths=3000,
          hints=['rqs[0].N[0] - rqs[0].M[0] - oms_list[0].spectrum_bitmap.n_min', 'rqs[0].N[1] - rqs[0].M[1] - oms_list[0].spectrum_bitmap.n_min',
                 'rqs[0].N[0] - oms_list[0].spectrum_bitmap.n_min', 'rqs[0].N[1] - oms_list[0].spectrum_bitmap.n_min'])
+
+# ---- one user-fixed (N, M) entry and one entry left free: the fixed one verbatim, the free one takes exactly what is left
+RQ_MIX = obj('<ns>', N=lst(integer(), const(None)), M=lst(integer(), const(None)), request_id=string())
+contract('gnpy.topology.spectrum_assignment.compute_n_m',
+         name='gnpy.topology.spectrum_assignment.compute_n_m[one fixed and one free entry, path over OMS [0]]', props=['C14'],
+         params={'required_m': integer(), 'rq': RQ_MIX, 'path_oms': const([0]), 'oms_list': lst(OMSB('a'), OMSB('b')),
+                 'per_channel_m': integer(), 'policy': const('first_fit')}, spec=SPEC_AGG,
+         inline_callees=['gnpy.core.utils.order_slots', 'gnpy.core.utils.restore_order'],
+         let={'A': _A, 'k': 'len(result[0])'},
+         requires=_REQ2 + [('guard_a', f'GB({_A})'), ('guard_consistent', f'CONSIST({_A})'), ('pcm', 'per_channel_m > 0'), ('required', 'required_m > 0'),
+                           ('fixed_m_positive', 'rq.M[0] > 0'),
+                           ('fixed_n_on_grid', f'{_A}.n_min <= rq.N[0] and rq.N[0] <= {_A}.n_max')],
+         ensures=[('shape', 'len(result[0]) == len(result[1]) and k <= 2'),
+                  ('fixed_entry_refused_means_not_served', 'implies(k == 0, result[2] == required_m)'),
+                  ('fixed_entry_verbatim', 'implies(k >= 1, result[0][0] == rq.N[0] and result[1][0] == rq.M[0])'),
+                  ('only_the_fixed_entry', 'implies(k == 1, result[2] == required_m - rq.M[0])'),
+                  ('free_entry_takes_exactly_what_is_left', 'implies(k == 2, result[1][1] == required_m - rq.M[0] and result[1][1] > 0 and result[2] == 0)'),
+                  ('free_entry_inside_guard_bands', 'implies(k == 2, result[0][1] - result[1][1] >= A.freq_index_min and result[0][1] + result[1][1] - 1 <= A.freq_index_max)'),
+                  ('free_entry_was_free', f'implies(k == 2, forall(lambda t: old({_A}.bitmap)[t] == BitmapValue.FREE, result[0][1] - result[1][1] - {_A}.n_min, result[0][1] + result[1][1] - {_A}.n_min))')],
+         # NOT in this contract: the free window is disjoint from the fixed range (the solver answers with a model that cannot be
+         # rebuilt - incomplete instantiation of the slice equality of the candidates comprehension; undecided, so not claimed;
+         # bounded/nm_requests.py checks it on service documents)
+         use_at_calls=False, modifies=[], max_paths=3000, timeout_s=40,
+         hints=['rq.N[0] - rq.M[0] - oms_list[0].spectrum_bitmap.n_min', 'rq.N[0] - oms_list[0].spectrum_bitmap.n_min'])
